@@ -398,14 +398,13 @@ func runC15(c *Ctx) {
 	if g == nil {
 		R.Fail("R15.3", "traceroute.RunTraceroute#anchor", 0, "", "anchor RunTraceroute no longer resolves")
 	} else {
-		rps2, _ := core.ReturnPaths(c.P, g, 5000)
 		nerr := 0
-		for _, rp := range rps2 {
-			f1, s1 := atomTrue(rp.Atoms, func(t *core.Term) bool {
+		for _, ip := range InlinedPaths(c.P, g, inlineOpts{pkg: core.FuncPkg(g), stop: runLayerStop}) {
+			f1, s1 := atomTrue(ip.Atoms, func(t *core.Term) bool {
 				return t.Op == "binop" && t.Name == "==" && t.Args[1].IsConst("nil") && t.Args[0].Op == "extract" && isCallToSuffix(t.Args[0].Args[0], ".runTracerouteMulti")
 			})
 			if !f1 {
-				R.Fail("R15.3", core.FuncName(g)+"#unchecked", rp.Ret.Pos(), core.FuncName(g), "a return path does not test the error of runTracerouteMulti")
+				R.Fail("R15.3", core.FuncName(g)+"#unchecked", ip.Ret.Pos(), core.FuncName(g), "a return path does not test the error of runTracerouteMulti")
 				continue
 			}
 			if s1 {
@@ -414,15 +413,13 @@ func runC15(c *Ctx) {
 			nerr++
 			// no enrichment call on the failing path
 			called := ""
-			for _, b := range rp.Path.Blocks {
-				for _, in := range b.Instrs {
-					if call, ok := in.(*ssa.Call); ok && call.Common().StaticCallee() != nil && strings.HasPrefix(core.FuncName(call.Common().StaticCallee()), "(*result.Results).") {
-						called = core.FuncName(call.Common().StaticCallee())
-					}
+			for _, ev := range ip.Events {
+				if ev.Kind == "call" && strings.HasPrefix(ev.Callee, "(*result.Results).") {
+					called = ev.Callee
 				}
 			}
-			okc := rp.Results[0].IsConst("nil") && rp.Results[1].Op == "extract" && called == ""
-			R.Check(okc, "R15.3", core.FuncName(g)+"#error-return", rp.Ret.Pos(), core.FuncName(g), "a failed request returns (nil, err) before any enrichment", "a failed request returns "+rp.Results[0].String()+" / "+rp.Results[1].String()+" (enrichment called: "+called+")")
+			okc := ip.Results[0].IsConst("nil") && ip.Results[1].Op == "extract" && called == ""
+			R.Check(okc, "R15.3", core.FuncName(g)+"#error-return", ip.Ret.Pos(), core.FuncName(g), "a failed request returns (nil, err) before any enrichment", "a failed request returns "+ip.Results[0].String()+" / "+ip.Results[1].String()+" (enrichment called: "+called+")")
 		}
 		R.Floor("R15.3:RunTraceroute-error-paths", nerr, 1)
 	}
